@@ -24,7 +24,7 @@ SPEC = {
     "assumptions": ["vlib/tealgrammar.py tokenizer drops exactly what the assembler treats as comments", "label alpha-renaming in order of definition"],
     "min_evaluations": {"quick": 4000, "thorough": 50000},
     "must_reach": ["streams_equal", "kind_comment_after_exit", "universal_newline_model_compared", "kind_comment_wrap", "kind_comment_alone", "kind_assert_comment", "kind_pragma", "kind_nonce", "kind_subname", "exec_equal"],
-    "shard_timeout": {"quick": 600, "thorough": 7200},
+    "shard_timeout": {"quick": 2400, "thorough": 14400},
 }
 
 KNOWN = "C18-comment-in-empty-block"
